@@ -204,8 +204,8 @@ class SimWorld:
                 # a native coroutine (not a notification) yielded by the process
                 try:
                     value = yield self._native_activity(op)
-                except SimProgError as err:
-                    self.log(name, "native!", op["d"], err.serial)
+                except (SimProgError, usim.Concurrent) as err:
+                    self.log(name, "native!", op["d"], getattr(self._leaf(err), "serial", repr(err)))
                 else:
                     self.log(name, "native-", op["d"], value)
             else:
@@ -275,8 +275,8 @@ class SimWorld:
             if "value" in op or "raises" in op:
                 try:
                     value = await self._native_activity(op)
-                except SimProgError as err:
-                    self.log(name, "native!", op["d"], err.serial)
+                except (SimProgError, usim.Concurrent) as err:
+                    self.log(name, "native!", op["d"], getattr(self._leaf(err), "serial", repr(err)))
                 else:
                     self.log(name, "native-", op["d"], value)
             else:
@@ -335,10 +335,23 @@ class SimWorld:
                         self.proc_name[id(proc)] = spec["name"]
 
     async def _native_activity(self, op):
+        if op.get("scoped"):
+            # the activity does its work in a child of its own scope: a failure leaves it as
+            # Concurrent (a BaseException), a value comes from the child task
+            async with usim.Scope() as scope:
+                task = scope.do(self._native_activity(dict(op, scoped=False)))
+            return await task
         await (usim.time + op["d"])
         if "raises" in op:
             raise SimProgError(op["raises"])
         return op.get("value")
+
+    @staticmethod
+    def _leaf(err):
+        """The program's exception inside a (nested) Concurrent, or the exception itself."""
+        while isinstance(err, usim.Concurrent) and len(err.children) == 1:
+            err = err.children[0]
+        return err
 
     def _proc_label(self, event):
         name = self.proc_name.get(id(event))
